@@ -278,23 +278,28 @@ def record_all_ticks(t):
     return [it["tick"] for op in t.post if op["op"] == "record_all" for it in op["items"]]
 
 
-def log_formats(t, mode):
-    """[spec_log_formats] for a `nd*` phase of the `log` build: no dispatcher was ever set, log's static cap is TRACE."""
-    if t.kind == "span":
-        return True
+def log_built(t, mode):
+    """[spec_log_formats] in a `nd*` phase of the `log` build (no dispatcher ever set, log's static cap is TRACE): is the
+    log record actually built, i.e. does it pass log::max_level() and the logger's enabled()?"""
     wants = mode != "ndoff"
     mx = int(mode[5:]) if mode.startswith("ndmax") else 5
     return wants and LEVELNUM[t.level] <= mx
 
 
+def log_formats(t, mode):
+    """what the CURRENT SOURCE does in a `nd*` phase (the model's answer, finding F101 included): an event builds its value
+    set only when the log record is built, a span always"""
+    return True if t.kind == "span" else log_built(t, mode)
+
+
 def check_nd(t, rec, mode):
-    """A phase without any dispatcher (only in the `log` build).  Returns (property failures, deviations from the
-    documented log behaviour).  The property cannot demand `evaluates nothing` here: with `log` on and no dispatcher the
-    disabled branch hands the fields to the `log` crate (C18) - what must hold is that nothing is evaluated TWICE, and
-    the exact pattern is compared with [spec_log_formats] as a tie."""
-    bad, dev = [], []
+    """A phase without any dispatcher (only in the `log` build).  Returns (property failures, occurrences of the known
+    finding F101, deviations from the model).  With `log` on and no dispatcher the disabled branch hands the fields to the
+    `log` crate (C18): that is allowed exactly when the log record is really built.  When `log` filters the record out too
+    (above log::max_level(), or Log::enabled says no) the callsite is disabled by every stage and nothing may be evaluated."""
+    bad, f101, dev = [], [], []
     if rec["ret"] == "panic":
-        return ["the invocation panicked"], dev
+        return ["the invocation panicked"], f101, dev
     if rec["d"] or rec["en"]:
         bad.append("no dispatcher was set but a collector was called: %s" % [d["cb"] for d in rec["d"]])
     if any(x > 1 for x in rec["t"]):
@@ -302,15 +307,21 @@ def check_nd(t, rec, mode):
     if t.kind == "enabled":
         if rec["ret"] != 0 or rec["t"]:
             bad.append("%s! without a dispatcher returned %s / evaluated %s" % (t.macro, rec["ret"], rec["t"]))
-        return bad, dev
+        return bad, f101, dev
     nt = t.nticks()
     got = rec["t"] + [0] * (nt - len(rec["t"]))
     ra = set(record_all_ticks(t))
+    own = [x for i, x in enumerate(got) if i not in ra]
+    if not log_built(t, mode) and any(own):
+        why = {"ndoff": "the logger's enabled() rejects it"}.get(mode, "its level is above log::max_level() = %s" % mode[5:])
+        msg = ("disabled for tracing (no dispatcher) and filtered out by `log` too (%s), but field/message expressions were evaluated: "
+               "counters %s" % (why, got))
+        (f101 if t.kind == "span" else bad).append(msg)
     f = log_formats(t, mode)
     want = [1 if (f or i in ra) else 0 for i in range(nt)]
     if got != want:
-        dev.append("counters %s, documented log behaviour gives %s (%s!, level %s, phase %s)" % (got, want, t.macro, t.level, mode))
-    return bad, dev
+        dev.append("counters %s, the model of the source gives %s (%s!, level %s, phase %s)" % (got, want, t.macro, t.level, mode))
+    return bad, f101, dev
 
 
 def check_record(case, t, rec, mode, parent_id, static=5, form_bad=None, logbuild=False):
@@ -751,16 +762,19 @@ def run(ctx):
         f.write(data_file(D))
     # two process runs with different phase orders: first-hit registration under each kind of collector,
     # and interest / max-level rebuilds when the collector changes
-    plans = [["always:%d" % R, "never:2", "dyn:2", "cap0:1", "cap2:2", "sometimes:3:5", "caps3:2:1", "cap4:1:3"],
-             ["never:1:7", "caps1:1:2", "sometimes:2:9", "dyn:1:4", "always:2:11", "cap3:1:6"]]
+    # `<mode>+p`: before every round of the phase a value whose Display/Debug PANICS is recorded (event field / span field /
+    # Span::record, by round) and the panic is caught; then the corpus runs on the same thread under the same scoped default:
+    # "exactly once" must not depend on such a history (the dispatcher's re-entrancy state must have been restored)
+    plans = [["always:%d" % R, "never:2", "dyn:2", "cap0:1", "cap2:2", "sometimes:3:5", "caps3:2:1", "cap4:1:3", "always+p:3:4", "sometimes+p:3:1"],
+             ["never:1:7", "caps1:1:2", "sometimes:2:9", "dyn:1:4", "always:2:11", "cap3:1:6", "caps4+p:2:3", "never+p:1:2"]]
     if ctx.thorough():
-        plans.append(["dyn:2:13", "always:3:17", "never:2:1", "caps5:2:3", "cap1:2:8", "sometimes:%d" % R])
+        plans.append(["dyn:2:13", "always:3:17", "never:2:1", "caps5:2:3", "cap1:2:8", "sometimes:%d" % R, "always+p:%d" % R, "sometimes+p:6:2"])
     # the static stage: same corpus, tracing compiled with max_level_info
-    static_plans = [["always:3:2", "sometimes:2:8", "cap5:1:1", "caps2:1:4", "never:1", "dyn:1:6"]]
+    static_plans = [["always:3:2", "sometimes:2:8", "cap5:1:1", "caps2:1:4", "never:1", "dyn:1:6", "sometimes+p:1:3"]]
     if ctx.thorough():
         static_plans.append(["dyn:1:3", "caps4:2:9", "always:%d" % R])
     # the `log` side: same corpus, tracing compiled with its `log` feature, a logger installed; first without any dispatcher
-    log_plans = [["ndon:2", "ndoff:1:3", "ndmax3:1:5", "ndmax1:1:7", "always:2:1", "never:1:2", "dyn:1:4", "caps2:1:6"]]
+    log_plans = [["ndon:2", "ndoff:1:3", "ndmax3:1:5", "ndmax1:1:7", "ndmax0:1:2", "always:2:1", "never:1:2", "dyn:1:4", "caps2:1:6", "always+p:2:3"]]
     if ctx.thorough():
         log_plans.append(["ndmax4:2:9", "ndoff:2", "ndon:%d" % R, "sometimes:2:3", "cap0:1"])
     runs = []             # (profile, plan index, plan, output, static cap)
@@ -811,6 +825,7 @@ def run(ctx):
     n_static = 0
     seen_tpl = set()
     form_bad = []
+    probe_bad = []
     log_dev = []
     n_log = n_nd = 0
     for prof, pi, plan, out, static in runs:
@@ -818,6 +833,7 @@ def run(ctx):
         refs = {}
         phase_mode = {}
         phase_parent = {}
+        phase_probe = {}
         for line in out.splitlines():
             if not line.startswith("{"):
                 continue
@@ -839,10 +855,19 @@ def run(ctx):
                     rep.tie("harness:no-dispatcher-phase", False, "dispatch::has_been_set() is true in phase %s" % rec["mode"])
                 phase_mode[rec["phase"]] = rec["mode"]
                 phase_parent[rec["phase"]] = rec["parent_id"]
+                phase_probe[rec["phase"]] = bool(rec.get("panic_probe"))
                 case = Case(D, refs, R)
+                continue
+            if "probe" in rec:
+                # the panicking value itself: under an enabling collector it must really have panicked (else the phase proves nothing)
+                pm = phase_mode[rec["ph"]]
+                rep.count("panic-probe:%s" % ("caught" if rec["caught"] else "not-reached"))
+                if rec["caught"] != guard_of(pm, "ERROR", static):
+                    probe_bad.append("probe %d under `%s` (%s build, round %d): caught=%s" % (rec["probe"], pm, prof, rec["r"], rec["caught"]))
                 continue
             t = by_id[rec["i"]]
             mode = phase_mode[rec["ph"]]
+            probe = phase_probe.get(rec["ph"], False)
             rep.evaluations += 1
             rep.traces_validated += 1
             if mode.startswith("nd"):
@@ -850,15 +875,18 @@ def run(ctx):
                 n_nd += 1
                 rep.count("collector:none(log build):" + mode)
                 rep.count("disabled")
-                rep.count("disabled-branch-feeds-log" if (t.kind != "enabled" and log_formats(t, mode) and t.nticks()) else "disabled-branch-idle")
-                bad, dev = check_nd(t, rec, mode)
-                for b in bad[:2]:
+                rep.count("log-record-built" if (t.kind != "enabled" and log_built(t, mode)) else "log-record-filtered-out")
+                bad, f101, dev = check_nd(t, rec, mode)
+                for b, fid in [(x, None) for x in bad[:2]] + [(x, "F101") for x in f101[:1]]:
                     rep.violation("%s [%s!, template %d, round %d, no dispatcher (%s), %s build]" % (b, t.macro, t.id, rec["r"], mode, prof),
                                   {"template": describe(t), "round": rec["r"], "collector": mode, "profile": prof, "observed": rec,
-                                   "replay_cmd": "h_fields_log <data> --only %d %s:1:%d   (data = seed %d, R = %d)" % (t.id, mode, rec["r"], ctx.seed, R)})
+                                   "replay_cmd": "h_fields_log <data> --only %d %s:1:%d   (data = seed %d, R = %d)" % (t.id, mode, rec["r"], ctx.seed, R)},
+                                  finding=fid)
+                if f101:
+                    rep.count("F101:span-evaluates-though-log-rejects")
                 for d_ in dev:
                     log_dev.append({"template": describe(t), "round": rec["r"], "phase": mode, "what": d_})
-                key = (t.id, rec["r"], mode, static, True)
+                key = (t.id, rec["r"], mode, static, True, False)
                 if key not in model_cases and n_log < n_log_target and ctx.rng.random() < 0.2:
                     n_log += 1
                     model_cases[key] = (t, rec, refs)
@@ -877,13 +905,17 @@ def run(ctx):
                                     tuple(sorted(i["vk"] for i in t.items)), t.fmt is not None))
             bad = check_record(case, t, rec, mode, phase_parent[rec["ph"]], static, form_bad, logbuild)
             binname = "h_fields_static" if static < 5 else ("h_fields_log" if logbuild else "h_fields")
+            if probe:
+                rep.count("after-caught-panic-in-a-value")
             for b in bad[:2]:
-                rep.violation("%s [%s!, template %d, round %d, collector %s, %s build]" % (b, t.macro, t.id, rec["r"], mode, prof),
-                              {"template": describe(t), "round": rec["r"], "collector": mode, "profile": prof, "static_max_level": static,
+                hist = " AFTER a caught panic of a value's Display/Debug inside the visitor (probe %d)" % (rec["r"] % 3) if probe else ""
+                rep.violation("%s%s [%s!, template %d, round %d, collector %s, %s build]" % (b, hist, t.macro, t.id, rec["r"], mode, prof),
+                              {"template": describe(t), "round": rec["r"], "collector": mode + ("+p" if probe else ""), "profile": prof,
+                               "static_max_level": static, "history": "panic_probe(%d), caught; then this invocation" % (rec["r"] % 3) if probe else "none",
                                "observed": rec,
-                               "replay_cmd": "%s <data> --only %d %s:1:%d   (data = seed %d, R = %d)" % (binname, t.id, mode, rec["r"], ctx.seed, R)})
+                               "replay_cmd": "%s <data> --only %d %s%s:1:%d   (data = seed %d, R = %d)" % (binname, t.id, mode, "+p" if probe else "", rec["r"], ctx.seed, R)})
             # choose cases for the model: every template under `always` at two rounds + a seeded sample of everything else
-            key = (t.id, rec["r"], mode, static, logbuild)
+            key = (t.id, rec["r"], mode, static, logbuild, probe)
             if (prof in ("debug", "debug-static", "debug-log") or prof.startswith("corpus")) and key not in model_cases:
                 if logbuild:
                     take = n_log < n_log_target and ctx.rng.random() < 0.2
@@ -891,15 +923,18 @@ def run(ctx):
                 elif static < 5:
                     take = n_static < n_static_target and ctx.rng.random() < 0.25
                     n_static += take
+                elif probe:
+                    take = ctx.rng.random() < 0.05
                 else:
                     take = prof.startswith("corpus") or (mode == "always" and pi == 0 and rec["r"] in ((t.id * 7) % R, (t.id * 3 + 11) % R)) \
                         or ctx.rng.random() < 0.012
                     take = take and len(model_cases) - n_static - n_log < n_model_target
                 if take:
                     model_cases[key] = (t, rec, refs)
+    rep.tie("harness:panic-probe-panics-iff-the-collector-formats-it", not probe_bad, "%d probes" % len(probe_bad), probe_bad[:1] or None)
     rep.tie("corpus-form:level/name/target/parent-as-written", not form_bad, "%d observations" % len(form_bad), form_bad[:1] or None)
     rep.tie("log-feature:disabled-branch-evaluates-exactly-as-documented", not log_dev,
-            "%d of %d no-dispatcher observations deviate from spec_log_formats" % (len(log_dev), n_nd), log_dev[:1] or None)
+            "%d of %d no-dispatcher observations deviate from the model (spec_log_formats + F101)" % (len(log_dev), n_nd), log_dev[:1] or None)
     ctx.log("oracle done: %d observations, %d violations" % (rep.evaluations, len(rep.violations)))
     # ---- model evaluation on the same cases
     try:
